@@ -3,6 +3,7 @@
 package main
 
 import (
+	"compress/flate"
 	"encoding/base64"
 	"math/big"
 	"bytes"
@@ -152,6 +153,24 @@ func hostileInputs(tier string, r *rng) []hostile {
 	for _, d := range jksFieldSweep(r) {
 		if len(d) >= 12 {
 			add("jks:fieldsweep", "k.jks", d)
+		}
+	}
+	// 3a'. two fields together: every boundary entry COUNT in front of a private-key entry whose key length lies
+	for _, magic := range [][]byte{{0xFE, 0xED, 0xFE, 0xED}, {0xCE, 0xCE, 0xCE, 0xCE}} {
+		for _, cnt := range []uint32{0, 1, 2, 0x7FFFFFFF, 0x80000000, 0x80000001, 0xFFFFFFFE, 0xFFFFFFFF} {
+			for _, l := range []uint32{0x10000000, 0x7FFFFFFF, 0xFFFFFFFF} {
+				var b bytes.Buffer
+				b.Write(magic)
+				binary.Write(&b, binary.BigEndian, uint32(2))
+				binary.Write(&b, binary.BigEndian, cnt)
+				binary.Write(&b, binary.BigEndian, uint32(1))
+				binary.Write(&b, binary.BigEndian, uint16(1))
+				b.WriteString("x")
+				binary.Write(&b, binary.BigEndian, uint64(0))
+				binary.Write(&b, binary.BigEndian, l)
+				b.Write([]byte{1, 2, 3})
+				add("jks:count-and-length", "k.jks", b.Bytes())
+			}
 		}
 	}
 	// 3b. keystore entries the pre-check does not walk (unknown type, secret key) followed by / containing length fields
@@ -577,6 +596,31 @@ func bigInputs(tier string, r *rng) []hostile {
 		hs = append(hs, hostile{tag + "authkeys-long-options", "authorized_keys", append(append([]byte(`command="`), fill(n, "x,")...), []byte("\" ssh-ed25519 AAAAC3NzaC1lZDI1NTE5AAAAIPz0cHSXIFUM4LDUdPK+pPJdhGDU4nYuWIBfrWwx9cLF c\n")...)})
 		hs = append(hs, hostile{tag + "known-hosts-many-hosts", "known_hosts", append(fill(n, "h.example.com,"), []byte("h ssh-ed25519 AAAAC3NzaC1lZDI1NTE5AAAAIPz0cHSXIFUM4LDUdPK+pPJdhGDU4nYuWIBfrWwx9cLF\n")...)})
 		hs = append(hs, hostile{tag + "sshpub-long-comment", "id.pub", append([]byte("ssh-ed25519 AAAAC3NzaC1lZDI1NTE5AAAAIPz0cHSXIFUM4LDUdPK+pPJdhGDU4nYuWIBfrWwx9cLF "), fill(n, "c ")...)})
+		// OpenPGP: a compressed data packet inside a key block whose content inflates to about a thousand times the file (a
+		// User ID packet of that size behind a public-key packet), armored and binary
+		{
+			var z bytes.Buffer
+			fw, _ := flate.NewWriter(&z, flate.BestCompression)
+			inner := 1000 * n
+			if inner > 256<<20 {
+				inner = 256 << 20
+			}
+			fw.Write([]byte{0xCD, 0xFF, byte(inner >> 24), byte(inner >> 16), byte(inner >> 8), byte(inner)}) // new-format User ID packet, 5-octet length
+			chunk := bytes.Repeat([]byte("A"), 1<<20)
+			for left := inner; left > 0; {
+				k := len(chunk)
+				if k > left {
+					k = left
+				}
+				fw.Write(chunk[:k])
+				left -= k
+			}
+			fw.Close()
+			edk := pgpKeyFactories()[6](1700000000)
+			bin := append(pgpPacket(6, edk.body), frameNew(8, append([]byte{1}, z.Bytes()...), 0)...)
+			hs = append(hs, hostile{tag + "pgp-compressed-userid", "k.gpg", bin})
+			hs = append(hs, hostile{tag + "pgp-compressed-userid-armored", "k.asc", pgpArmor("PGP PUBLIC KEY BLOCK", bin)})
+		}
 		// OpenPGP: one packet whose length field promises more than is there; many tiny packets
 		hs = append(hs, hostile{tag + "pgp-tiny-packets", "k.gpg", fill(n, "\xb4\x01a")})
 		hs = append(hs, hostile{tag + "pgp-armor-long", "k.asc", append([]byte("-----BEGIN PGP PUBLIC KEY BLOCK-----\n\n"), fill(n, "xsBNBGZ4\n")...)})
